@@ -342,6 +342,36 @@ func genSrvMerge(rng *rand.Rand, tier string, emit func(string)) {
 			}
 		}
 	}
+	// ---- every PLSET request is answered, one reply per pair (in-process sessions; Lean model of the reply count)
+	if has("raw") {
+		nsess, per := 3, 25
+		if thorough {
+			nsess, per = 12, 120
+		}
+		for s := 0; s < nsess; s++ {
+			P := []int{1, 2, 3, 5, 8}[rng.Intn(5)]
+			via := "mem"
+			if rng.Intn(3) == 0 {
+				via = "tcp"
+			}
+			emit(fmt.Sprintf("reset P=%d via=%s", P, via))
+			for i := 0; i < per; i++ {
+				n := rng.Intn(10)
+				if rng.Intn(4) == 0 {
+					n = []int{0, 1, 2, 3}[rng.Intn(4)]
+				}
+				var a []string
+				for j := 0; j < n; j++ {
+					if j%2 == 0 {
+						a = append(a, smNS+":"+[]string{"t", "t2", "tt"}[rng.Intn(3)]+":"+smKeyPart(rng))
+					} else {
+						a = append(a, []string{"v", "", "0", "x y"}[rng.Intn(4)])
+					}
+				}
+				emit(strings.TrimSpace("plcount " + smHexArgs(a...)))
+			}
+		}
+	}
 	// ---- robustness: adversarial argument vectors through serverRedis of a CHILD process
 	if has("raw") {
 		children, per := 4, 400
@@ -1645,6 +1675,36 @@ func newSrvMerge(c *Ctx) func(string) string {
 				c.Note("pipe:mixed")
 			}
 			return "[" + strings.Join(got, ",") + "]"
+
+		case "plcount":
+			// how many replies ONE PLSET request gets (Lean: Z.Props.C11Plset.replies over the regenerated guards / loops):
+			// keys (even positions) are keys every layer accepts, of hosted partitions; any number of arguments
+			if !need() || lastH != 0 {
+				return "bad-op"
+			}
+			a := unhexAll(f[1:])
+			for i, k := range a {
+				if i%2 == 0 && smKeyValidity(k) != 1 {
+					return "bad-op"
+				}
+			}
+			vs, prob := ss.do(append([]string{"plset"}, a...)...)
+			if prob != "" && !strings.Contains(prob, "replies for") {
+				return broken(line, prob)
+			}
+			allOK := len(vs) > 0
+			for _, v := range vs {
+				if !(v.k == 's' && string(v.b) == "OK") {
+					allOK = false
+				}
+			}
+			if allOK {
+				for i := 0; i+1 < len(a); i += 2 {
+					ss.kv[rk(a[i])] = a[i+1]
+				}
+			}
+			c.Note(fmt.Sprintf("plcount:args=%d:replies=%d", len(a), len(vs)))
+			return fmt.Sprintf("replies=%d", len(vs))
 
 		case "scan":
 			if len(f) != 6 || !need() {
